@@ -66,6 +66,15 @@ def alterations(rng, wire, header_len, thorough):
             m = bytearray(wire[:24]) + body + (bytes(trailer) + bytes([0xA5]) * k if k or body == b"evil" else b"")
             m[8:10] = len(m).to_bytes(2, "little"); m[10:12] = k.to_bytes(2, "little")
             out.append((f"forged cleartext auth_len={k}", bytes(m)))
+    # … and with every authentication level / type value in the copied trailer (the reply claims a weaker protection level)
+    for level in range(0, 8):
+        for body in (b"ATTACKER-STUB-16", wire[24:tr]):
+            trailer = bytearray(wire[tr:tr + 8]); trailer[1] = level
+            m = bytearray(wire[:24]) + body + bytes(trailer) + (bytes([0xA5]) * header_len if body != wire[24:tr] else wire[tr + 8:])
+            m[8:10] = len(m).to_bytes(2, "little"); m[10:12] = header_len.to_bytes(2, "little")
+            out.append((f"trailer auth_level={level}" + (" forged cleartext" if body != wire[24:tr] else ""), bytes(m)))
+    for i in range(tr * 8, (tr + 8) * 8):     # every bit of the security trailer header, always
+        out.append((f"bitflip@{i // 8}", wire[:i // 8] + bytes([wire[i // 8] ^ (1 << (i % 8))]) + wire[i // 8 + 1:]))
     for c in (16, 23, 24, 25, tr, tr + 7, tr + 8, n - 1):
         if 16 <= c < n:
             m = bytearray(wire[:c]); m[8:10] = c.to_bytes(2, "little"); out.append((f"truncated@{c}", bytes(m)))
